@@ -575,9 +575,24 @@ class SymHMAC:
 
     def __init__(self, key, msg=None, digestmod=None):
         self.key, self.msg, self.digestmod = key, msg, digestmod
+        self.digest_size = digestmod().digest_size if callable(digestmod) else None
+
+    def update(self, data):
+        if self.msg is None or len(self.msg) == 0:
+            self.msg = data
+        else:
+            self.msg = SymBytes.lift(self.msg) + data
+            if self.msg.is_concrete():
+                self.msg = bytes(self.msg.items)
+
+    def copy(self):
+        return SymHMAC(self.key, self.msg, self.digestmod)
+
+    def hexdigest(self):
+        return self.digest().hex()
 
     def digest(self):
-        k, m = self.key, self.msg
+        k, m = self.key, (self.msg if self.msg is not None else b'')
         if isinstance(k, SymBytes) and k.is_concrete():
             k = bytes(k.items)
         if isinstance(m, SymBytes) and m.is_concrete():
